@@ -802,6 +802,18 @@ impl Machine {
                     dg.str(&txt);
                     obs.texts.push((txt, r, false));
                 }
+                "u.to_str_seq" => {
+                    // several conversions of the same value in a row, radices that share internal tables
+                    for r in radix_sequence(k) {
+                        if f == 0 {
+                            let txt = self.u[a].to_str_radix(r);
+                            dg.str(&txt);
+                            obs.texts.push((txt, r, false));
+                        } else {
+                            dg.bytes(&self.u[a].to_radix_le(r));
+                        }
+                    }
+                }
                 "u.fmt" => {
                     let x = &self.u[a];
                     let (txt, r, up) = match f {
@@ -1251,6 +1263,19 @@ impl Machine {
                     dg.str(&txt);
                     obs.texts.push((txt, r, false));
                 }
+                "i.to_str_seq" => {
+                    for r in radix_sequence(k) {
+                        if f == 0 {
+                            let txt = self.i[a].to_str_radix(r);
+                            dg.str(&txt);
+                            obs.texts.push((txt, r, false));
+                        } else {
+                            let (sg, v) = self.i[a].to_radix_le(r);
+                            dg.u64(sg as u64);
+                            dg.bytes(&v);
+                        }
+                    }
+                }
                 "i.fmt" => {
                     let x = &self.i[a];
                     let (txt, r, up) = match f {
@@ -1366,6 +1391,14 @@ impl Machine {
             dg.u64(0xabce);
         }
     }
+}
+
+/// Three radices (2..=36) chosen by `k` from families that share a "largest power fitting a digit".
+fn radix_sequence(k: i128) -> [u32; 3] {
+    const FAM: [[u32; 3]; 10] = [
+        [3, 9, 27], [9, 3, 27], [6, 36, 6], [36, 6, 36], [5, 25, 5], [2, 4, 16], [8, 32, 2], [10, 7, 10], [27, 9, 3], [25, 5, 35],
+    ];
+    FAM[(k.unsigned_abs() % 10) as usize]
 }
 
 fn two_mut<T>(v: &mut [T], x: usize, y: usize) -> (&mut T, &mut T) {
